@@ -5,7 +5,7 @@
    recursion an explicit `OutOfFuel`.  Statements only; each closed by `exact <lemma>`. *)
 From Coq Require Import List String Bool.
 From Cog Require Import Model.IR Model.Passes Model.Filter Model.Process Model.Builders Model.BuildersEq
-     Model.Spec16 Proofs.C04Proofs.
+     Model.Spec16 Model.PassesChain Proofs.C04Proofs Proofs.ChainTotalProofs.
 Import ListNotations.
 
 (* The user-configurable transformations other than add_fields / constant_to_enum are total
@@ -61,3 +61,65 @@ Example c04_nonvacuous :
               [("S", mkObject "S" [] (TStruct A0 [] [mkField "x" [] (TRef A0 "p" "T") true]) "p" "S");
                ("T", mkObject "T" [] (TScalar A0 KString DNil []) "p" "T")]] = true.
 Proof. vm_compute. reflexivity. Qed.
+
+(* ---------- the language chains' passes (Model/PassesChain.v; Proofs/ChainTotalProofs.v).
+   is_ok' / ok_or_err' are is_ok / ok_or_err: no Panic, no OutOfFuel (and no error / possibly an error).
+   Each conditional theorem comes with the witness on which the real pass panics or overflows the stack when the
+   condition is dropped: those witnesses are crash findings of C04. ---------- *)
+Theorem chain_passes_total : forall p ss,
+  match p with
+  | PAnonymousStructsToNamed | PNotRequiredFieldAsNullableType | PAnonymousEnumToExplicitType
+  | PRenameNumericEnumValues => is_ok' (run_pass p ss) = true
+  | _ => True
+  end.
+Proof. exact total_chain_passes. Qed.
+Print Assumptions chain_passes_total.
+Theorem disjunction_with_constant_to_default_total : forall ss, is_ok' (disjunction_with_constant_to_default ss) = true.
+Proof. exact dwctd_total. Qed.
+Print Assumptions disjunction_with_constant_to_default_total.
+Theorem disjunction_of_anonymous_structs_to_explicit_total : forall ss,
+  is_ok' (disjunction_of_anonymous_structs_to_explicit ss) = true.
+Proof. exact doaste_total. Qed.
+Print Assumptions disjunction_of_anonymous_structs_to_explicit_total.
+Theorem disjunction_with_null_to_optional_no_panic : forall ss,
+  no_null_null ss = true -> is_ok' (disjunction_with_null_to_optional ss) = true.
+Proof. exact dwnto_no_panic. Qed.
+Print Assumptions disjunction_with_null_to_optional_no_panic.
+Theorem prefix_enum_values_total_on_named_members : forall ss,
+  pev_safe_schemas ss = true -> is_ok' (prefix_enum_values ss) = true.
+Proof. exact prefix_enum_values_no_panic. Qed.
+Print Assumptions prefix_enum_values_total_on_named_members.
+Theorem sanitize_enum_member_names_total_on_named_members : forall ss,
+  senm_safe_schemas ss = true -> is_ok' (sanitize_enum_member_names ss) = true.
+Proof. exact sanitize_no_panic. Qed.
+Print Assumptions sanitize_enum_member_names_total_on_named_members.
+(* the passes that follow references while resolving union branches neither panic nor exhaust the stack when
+   those references resolve without looping *)
+Theorem flatten_disjunctions_no_crash : forall ss, unions_resolve ss = true -> is_ok' (flatten_disjunctions ss) = true.
+Proof. exact flatten_no_crash. Qed.
+Print Assumptions flatten_disjunctions_no_crash.
+Theorem undiscriminated_disjunction_to_any_no_crash : forall ss,
+  unions_resolve ss = true -> is_ok' (undiscriminated_disjunction_to_any ss) = true.
+Proof. exact undiscriminated_no_crash. Qed.
+Print Assumptions undiscriminated_disjunction_to_any_no_crash.
+Theorem disjunction_to_type_no_crash : forall ss, unions_resolve ss = true -> ok_or_err' (disjunction_to_type ss) = true.
+Proof. exact dtt_no_crash. Qed.
+Print Assumptions disjunction_to_type_no_crash.
+Theorem dataquery_identification_total_on_struct_base : forall ss,
+  dataquery_base_ok ss = true -> is_ok' (dataquery_identification ss) = true.
+Proof. exact dataquery_identification_no_panic. Qed.
+Print Assumptions dataquery_identification_total_on_struct_base.
+(* the conditions are needed: the model (= the real passes, by correspondence) crashes without them *)
+Theorem chain_pass_crash_witnesses :
+  (exists ss, disjunction_with_null_to_optional ss = Panic "index out of range [0] with length 0") /\
+  (exists ss, prefix_enum_values ss = Panic "index out of range [0] with length 0") /\
+  (exists ss, unions_resolve ss = false /\ flatten_disjunctions ss = OutOfFuel /\
+              undiscriminated_disjunction_to_any ss = OutOfFuel /\ disjunction_to_type ss = OutOfFuel) /\
+  (exists ss, dataquery_identification ss = Panic "invalid memory address or nil pointer dereference").
+Proof.
+  split; [eexists; exact dwnto_panics_on_null_null|].
+  split; [eexists; exact (proj1 enum_member_panics)|].
+  split; [eexists; exact reference_cycle_overflows|].
+  eexists; exact dataquery_identification_panics.
+Qed.
+Print Assumptions chain_pass_crash_witnesses.
